@@ -166,6 +166,9 @@ def fixed_not_written(ctx: Ctx):
                                         ok = True
                                     else:
                                         why = f"`{idx.id}` iterates over `{src(fo.iter)}`, not over the fixed-mode-filtered `{sweep}`"
+                                # for position, mode in enumerate(modes): the element, not the position
+                                elif isinstance(fo.target, (ast.Tuple, ast.List)) and len(fo.target.elts) == 2 and is_name(fo.target.elts[1], idx.id) and isinstance(fo.iter, ast.Call) and is_name(fo.iter.func, "enumerate") and fo.iter.args and is_name(fo.iter.args[0], sweep):
+                                    ok = True
                         res.instance("FIXED-NOT-WRITTEN", f"{qname}: store {src(x)} @{s.lineno}", sample={"stmt": src(s)[:90], "ok": ok})
                         if not ok:
                             ctx.finding("FIXED-NOT-WRITTEN", f, s, f"sweep store into `{fvar}`: {why}: a mode declared fixed can be overwritten", construct=f"{src(x)} = ... ({why[:60]})")
